@@ -134,3 +134,40 @@ Definition write_trust_iter {A} (len : nat) (it : titer A) : wstatus * list (nat
 (* the buffer after a sequence of uset calls *)
 Definition apply_writes {A} (ws : list (nat * A)) (buf : list (option A)) : list (option A) :=
   fold_left (fun b w => set_nth (fst w) (snd w) b) ws buf.
+
+(* ---- Vec1Mut (view_mut.rs) and Vec1::sort_unstable_by (own.rs:68-88) ------------------------- *)
+(* get_mut: bounds-checked access                                              view_mut.rs:29-36 *)
+Definition get_mut {T} (xs : list T) (i : nat) : option T :=
+  if i <? length xs then nth_error xs i else None.
+
+(* apply_mut_with: tensure!(len equal) then f(&mut self[i], other[i]) for i in 0..len, in order.
+   Returns (ok?, self afterwards, the calls made)                              view_mut.rs:73-90 *)
+Definition apply_mut_with {T OT} (f : T -> OT -> T) (xs : list T) (ys : list OT)
+  : bool * list T * list (T * OT) :=
+  if length xs =? length ys
+  then (true, map (fun p => f (fst p) (snd p)) (combine xs ys), combine xs ys)
+  else (false, xs, []).
+
+(* sort_unstable_by(compare): slice::sort_unstable_by when the data is contiguous, else copy out
+   (collect_trusted_vec1), sort the copy, write it back with apply_mut_with.  Both paths leave the
+   sorted sequence; for a total order on distinct-or-equal keys the result is unique, so an
+   insertion sort stands for std's pattern-defeating quicksort. *)
+Section Sort.
+  Context {T : Type} (leb : T -> T -> bool).
+  Fixpoint insert_sorted (x : T) (l : list T) : list T :=
+    match l with
+    | [] => [x]
+    | y :: r => if leb x y then x :: l else y :: insert_sorted x r
+    end.
+  Fixpoint isort (l : list T) : list T :=
+    match l with
+    | [] => []
+    | x :: r => insert_sorted x (isort r)
+    end.
+  Definition sort_unstable_by (xs : list T) : bool * list T :=
+    let copy := collect_from_trusted BRaw (exact_iter xs) in
+    match copy with
+    | Done c => let '(ok, out, _) := apply_mut_with (fun _ vo => vo) xs (isort c) in (ok, out)
+    | _ => (false, xs)
+    end.
+End Sort.
